@@ -93,9 +93,12 @@ def c19(tier, seed):
         for y0 in starts:
             for ln in spans:
                 y1 = min(2099, y0 + ln - 1)
-                for month in ((0, 1) if tier == "quick" else (0, 1, 2)):
-                    out, ch = impl.classify(lambda: FutureChain(_cls(cls), "%d-01" % y0, "%d-12" % y1, month=month))
-                    case = {"kind": "chain", "cls": cls, "start": y0, "end": y1, "month": month}
+                # span ends: the first of December, and two instants that are themselves listing dates of the quarterly and
+                # monthly cycles (the last day of a quarter)
+                for month, endfmt in [(mo, e) for mo in ((0, 1) if tier == "quick" else (0, 1, 2)) for e in ("%d-12", "%d-12-31", "%d-03-31")]:
+                    end = endfmt % y1
+                    out, ch = impl.classify(lambda: FutureChain(_cls(cls), "%d-01" % y0, end, month=month))
+                    case = {"kind": "chain", "cls": cls, "start": y0, "end": end, "month": month}
                     nch += 1
                     if out != "ok":
                         rep.violation("chain_construct", "chain_construct/%s" % cls, "FutureChain(%s, %d-01, %d-12) raised %r" % (cls, y0, y1, ch), case)
